@@ -2172,6 +2172,19 @@ impl Actor {
                 .take(rt.policy().wpost_period_deadlines as usize)
                 .collect();
             let mut deadlines_to_load = Vec::<u64>::new();
+            // A sector may be named by one declaration only. Claims are validated against the new
+            // expiration of the declaration that lists them, so a second declaration naming the
+            // same sector could otherwise move it past a claim's maximum term unchecked.
+            let mut declared_sectors = BitField::new();
+            for decl in &inner.extensions {
+                if declared_sectors.contains_any(&decl.sectors) {
+                    return Err(actor_error!(
+                        illegal_argument,
+                        "a sector is named by more than one extension declaration"
+                    ));
+                }
+                declared_sectors |= &decl.sectors;
+            }
             for decl in &inner.extensions {
                 // the deadline indices are already checked.
                 let decls = &mut decls_by_deadline[decl.deadline as usize];
